@@ -41,7 +41,7 @@ def direction_a(ctx, cell, rng):
     keys = [RefKey.from_jwk(r["key"]) for r in p.recs]
     resolver = keys[0] if len(keys) == 1 else keys
     snd = RefKey.from_jwk(gen.public_jwk(p.recs[0]["sender"])) if p.recs[0]["sender"] else None
-    r = rjwe.decrypt(tok, resolver, snd, strict_deflate=True)
+    r = rjwe.decrypt(tok, resolver, snd, strict_deflate=True, disjoint=True)
     ctx.count("a_checked")
     ctx.nontrivial(("A", tok if isinstance(tok, str) else json.dumps(tok, sort_keys=True)))
     case = {"dir": "A", "cell": d, "token": tok, "recs": p.recs}
